@@ -10,7 +10,7 @@ RULE = ("every emit entry point (read/write requests in 8/16-bit semantics, ackn
         "responses, both meta messages) x {serial, tcp} x {8, 16}-bit memory x addresses (0, SLIP control octets in every position, "
         "0xffffffff, random) x block sizes (0, 1, 2, 63..65, 115..117 = varint boundary of the TCP frame, 4 GiB-1 for reads) x payloads "
         "containing C0 DB DC DD x sequence numbers incl. 0xfffe..0 (wrap); every emitted frame is looped back into the same instance's "
-        "receiver, received, and released; thorough adds payloads across the 16383/16384 varint boundary and 40 random emissions per "
+        "receiver, received, and released; thorough adds TCP frames of 16383 and 16384 octets (varint prefix growing to three octets) and 40 random emissions per "
         "configuration.  Non-trivial = a frame reached the wire; distinct = distinct operation text.")
 EXHAUSTIVE = {"quick": False, "thorough": False}
 ASSUMPTIONS = [
@@ -97,10 +97,11 @@ def cases(tier, seed):
             unit = mem // 8
             for ep in ("serial", "tcp"):
                 ops = [R.cfg(mem, ep, 40000)]
-                for plen in (16370, 16371, 16372, 16373):
-                    n = plen // unit
-                    ops += ["rp.req w%d 5 %d %s" % (mem, n, R.hexs(R.rbytes(rnd, n * unit)))] + roundtrip()
-                    ops += ["rp.ack 0 1 2 %d %s" % (n, R.hexs(R.rbytes(rnd, n * unit)))] + roundtrip()
+                if ep == "tcp":
+                    # frame length 16383 / 16384: the varint prefix grows from two to three octets
+                    for plen in (16371, 16372):
+                        n = plen // unit
+                        ops += ["rp.req w%d 5 %d %s" % (mem, n, R.hexs(R.rbytes(rnd, n * unit)))] + roundtrip()
                 for _ in range(40):
                     n = rnd.randint(0, 300)
                     k = rnd.choice(["r8", "r16", "w8", "w16", "resp0", "resp32", "ack"])
